@@ -262,21 +262,23 @@ def endpoints(ctx, fn, f, fl, site):
         dstit = f["params"][1]["n"]
         det = []
         if both:
-            recvs = [S(e["recv"]) for _, e in er]
+            dfs = fn.defs()
+            X = lambda t: S(t, dfs)            # locals expanded through their single definition (dstNode = dst->first())
+            recvs = [X(e["recv"]) for _, e in er]
             if len(er) != 2 or src not in recvs or not any("first()" in r for r in recvs):
                 det.append("erase sites %s" % recvs)
             else:
                 for _, e in er:
                     a = e.get("a", [])
-                    if "first()" in S(e["recv"]):
+                    if "first()" in X(e["recv"]):
                         if S(a[0]) != src or R.decide(a[1], {}) != int(fl["directional"]):
                             det.append("reverse entry erased with (%s, %s)" % (S(a[0]), S(a[1]) if len(a) > 1 else None))
                     else:
                         if dstit + ".base()" not in S(a[0]):
                             det.append("source entry erased with %s" % S(a[0]))
                 # reverse entry erased before the source entry (the iterator stays valid)
-                rev = [p for p, e in er if "first()" in S(e["recv"])][0]
-                fwd = [p for p, e in er if "first()" not in S(e["recv"])][0]
+                rev = [p for p, e in er if "first()" in X(e["recv"])][0]
+                fwd = [p for p, e in er if "first()" not in X(e["recv"])][0]
                 fwd_ev = fn.ev(fwd)
                 if not fn.must_follow(rev, lambda x: x is fwd_ev):
                     det.append("source entry not erased after the reverse entry")
@@ -369,9 +371,15 @@ def lifecycle(ctx, fx):
         for f in cn[:3]:
             fn = Fn(f)
             em = is_call(name="emplace", recv=r"nodes$")
-            ina = lambda e: e.get("k") == "assign" and S(e.get("lhs")).endswith("->active") and e.get("rp") == "false"
+            # the flag written is the `active` member of the node that emplace returned, whether the node is held through a
+            # pointer (&nodes.emplace(..)) or a reference
+            al = dict(fn.defs()); al.update(fn.aliases())
+            def act_of_new(e):
+                l = e.get("lhs") or {}
+                return e.get("k") == "assign" and l.get("k") == "mem" and l.get("n") == "active" and "emplace(" in S(l.get("b"), al)
+            ina = lambda e: act_of_new(e) and e.get("rp") == "false"
             ok = any(True for _ in fn.events(em)) and not fn.exit_reachable_without(ina) and not fn.reaches_without(ina, em)
-            ok = ok and not any(True for _ in fn.events(lambda e: e.get("k") == "assign" and S(e.get("lhs")).endswith("->active") and e.get("rp") == "true"))
+            ok = ok and not any(True for _ in fn.events(lambda e: act_of_new(e) and e.get("rp") == "true"))
             ctx.ob("C10.node-lifecycle", cls + "::createNode", ok, "new node is not left inactive after nodes.emplace", fn.loc(),
                    "createNode", fnkey=f["key"])
         for f in [g for g in fx.functions if g.get("cls") == cls and g["kind"] == "inst" and g["name"] == "removeNode"][:4]:
